@@ -332,10 +332,10 @@ def run(ctx):
     from ..runner import shard_replays
     shard_replays(ctx, replay)
     maxdeg = ctx.scale(4, 6)
-    explore(ctx, "rhs", rhs_case(maxdeg), eval_rhs, ctx.share(ctx.scale(240, 6000)))
+    explore(ctx, "rhs", rhs_case(maxdeg), eval_rhs, ctx.share(ctx.scale(240, 3000)))
     # one closure-compiled rhs per shard is always exercised
-    nH = ctx.scale(1, 3)
-    ncases = ctx.scale(16, 60)
+    nH = ctx.scale(1, 2)
+    ncases = ctx.scale(16, 30)
     # quick tier: each shard compiles only two of the five integrators (every kernel x system x event costs a JIT
     # compilation); over the 6 shards every integrator is exercised on at least two Hamiltonians
     ints = INTEGRATORS if ctx.tier != "quick" else [INTEGRATORS[(2 * ctx.shard + k) % len(INTEGRATORS)] for k in range(2)]
